@@ -101,4 +101,42 @@ pub mod runtime {
     }
 }
 
+/// the Rust-side constructor of a list (src/value/list.rs `boundary::List::<T>::new`): which element
+/// layout and which clone / drop / eq functions the list is created with
+pub mod list_unit {
+    use crate::value::Value;
+    use std::alloc::Layout;
+    use std::marker::PhantomData;
+    #[path = "/repo/src/value/vtable.rs"]
+    pub mod vtable;
+    use vtable::{CloneFn, DropFn, EqFn, VTable};
+
+    /*@FN_EXTERN_CLONE@*/
+
+    /*@FN_EXTERN_DROP@*/
+
+    /*@FN_EXTERN_EQ@*/
+
+    pub struct ErasedList {
+        pub vtable: VTable,
+    }
+    impl ErasedList {
+        pub fn new(vtable: VTable) -> Self {
+            ErasedList { vtable }
+        }
+    }
+    pub struct List<T: Value> {
+        pub inner: ErasedList,
+        pub _phantom: PhantomData<T>,
+    }
+    impl<T: Value> List<T>
+    where
+        T::Transformed: PartialEq,
+    {
+        /*@FN_LIST_NEW@*/
+    }
+
+    include!("harness_list.rs");
+}
+
 fn main() {}
